@@ -647,3 +647,25 @@ mod unit_tests {
         }
     }
 }
+
+// Verification hook H3 (only compiled with `--cfg rustfft_verif`): the private re-indexing loops, callable on their own. Add-only.
+#[cfg(rustfft_verif)]
+impl<T: FftNum> GoodThomasAlgorithm<T> {
+    pub fn verif_reindex_input(&self, source: &[Complex<T>], destination: &mut [Complex<T>]) {
+        self.reindex_input(source, destination)
+    }
+    pub fn verif_reindex_output(&self, source: &[Complex<T>], destination: &mut [Complex<T>]) {
+        self.reindex_output(source, destination)
+    }
+    /// (width, height) after the constructor's swap
+    pub fn verif_dims(&self) -> (usize, usize) {
+        (self.width, self.height)
+    }
+}
+#[cfg(rustfft_verif)]
+impl<T: FftNum> GoodThomasAlgorithmSmall<T> {
+    /// the precomputed input map followed by the output map
+    pub fn verif_input_output_map(&self) -> Vec<usize> {
+        self.input_output_map.to_vec()
+    }
+}
